@@ -13,7 +13,7 @@ DT = {"float32": torch.float32, "float64": torch.float64}
 NPDT = {"float32": np.float32, "float64": np.float64}
 DTNAME = {torch.float32: "float32", torch.float64: "float64"}
 
-LAYOUTS = ("contig", "transposed", "step", "offset", "expand", "chlast")
+LAYOUTS = ("contig", "transposed", "step", "offset", "expand", "chlast", "rowstep", "chanslice")
 
 
 def _rnd(rng, shape, dtype, scale):
@@ -38,6 +38,12 @@ def make_tensor(spec):
     elif layout == "offset":
         base = _rnd(rng, shape[:-1] + [shape[-1] + 3], dtype, scale)
         view = base[..., 1:1 + shape[-1]]
+    elif layout == "rowstep" and len(shape) >= 3:
+        base = _rnd(rng, shape[:-2] + [2 * shape[-2], shape[-1]], dtype, scale)
+        view = base[..., ::2, :]
+    elif layout == "chanslice" and len(shape) >= 3:
+        base = _rnd(rng, [shape[0], shape[1] + 2] + shape[2:], dtype, scale)
+        view = base[:, 1:1 + shape[1]]
     elif layout == "expand" and shape[0] > 1:
         base = _rnd(rng, [1] + shape[1:], dtype, scale)
         view = base.expand(shape)
